@@ -1,16 +1,24 @@
 import RTA.Lemmas.SupplyFifo
+import RTA.Lemmas.TimerSound
 import RTA.Spec.Ros2Exec
 /-! # C04 — the ECRTS'19 ROS 2 analyses are safe under reservation supply
 
-Proved here (for all reservation parameters, all compliant budget placements, all compliant
-arrival sequences and execution times, all FIFO tie-breaks): the **event-source** analysis.
-The executor itself is specified as a labelled transition system (`RTA/Spec/Ros2Exec.lean`:
-timers first in priority order, ready set refreshed only when empty, one instance per
-callback per polling window, non-preemptive, progress only in supplied slots); the claims
-for the **timer**, **polling-point callback** and **processing-chain** analyses are stated
-over that model (`TimerSafe`, `PollingPointSafe`) and are explored — not proved — by the
-falsifier, which executes the same model (`vlib/ros_sim.py`, cross-checked against the Lean
-definition on every run) under random, late and adversarial budget placements. -/
+Proved here, for all reservation parameters, all compliant budget placements (indeed every
+supply process that delivers at least the supply-bound function in every window), all
+compliant arrival sequences and all execution times up to the WCET:
+* the **event-source** analysis (FIFO processing, all tie-breaks);
+* the **timer** analysis and the **polling-point callback** analysis, over a schedule-level
+  Spec of the executor (`SupplyTimerLegal`, `RTA/Lemmas/TimerSound.lean`): callbacks are
+  non-preemptive and progress only in supplied slots; the executor does not idle while an
+  instance of the analysed callback or of an interfering callback is pending; a callback
+  that is neither is never started while such an instance is pending; instances of the
+  analysed callback start in release order.  Everything else about the executor (polling
+  points, ready set, order among the other callbacks) is arbitrary.
+The executor itself is also specified as a labelled transition system
+(`RTA/Spec/Ros2Exec.lean`); that its runs satisfy the schedule-level Spec is checked on
+every run by executing it (`vlib/ros_sim.py: check_timer_legal`, cross-checked against the
+Lean LTS by the driver op `exec`), not proved; the **processing-chain** analysis is stated and
+explored only. -/
 
 namespace RTA.C04
 open RTA RTA.Sched RTA.Spec
@@ -56,14 +64,77 @@ theorem fifo_on_supply (s : Sys) (σ : ℕ → Bool) (hl : SupplyFifoLegal s σ)
     (j : ℕ) (hj : j < s.n) : svc s j (s.arr j + R) = s.cost j :=
   supply_fifo_sound s σ hl sbf rbf hsbf hwork L R hLfix hL hR j hj
 
+/-- C04, timer: `Ok(R)` of `rta_timer` is never exceeded by any instance of the analysed
+timer `i` — every supply process that delivers at least the supply-bound function of `sup`,
+every schedule satisfying the executor Spec `SupplyTimerLegal`, every release pattern within
+the curves (`hN`, `hhp`), every execution time up to the WCET (`hcost`), blocking by any
+other callback of cost at most `B + 1` -/
+theorem timer_safe (s : Sys) (σ : ℕ → Bool) (i : ℕ) (hp : ℕ → Prop) [DecidablePred hp]
+    (hl : SupplyTimerLegal s σ i hp) (hi : ¬ hp i)
+    (sup : Supply) (hs : sup.WF) (hsbf : ∀ t d, sup.sbf d ≤ service σ t d)
+    (a : Arr) (C : ℕ) (hwf : a.WF) (hex : a.Exact) (hC : 1 ≤ C)
+    (interf : RB) (hwfi : interf.ArrWF) (hexi : interf.Exact) (B : ℕ)
+    (hN : ∀ t d, countOf s i t (t + d) ≤ a.N d)
+    (hcost : ∀ k < s.n, s.task k = i → s.cost k ≤ C)
+    (hhp : ∀ t d, workOf s hp t (t + d) ≤ interf.need d)
+    (hB : ∀ k < s.n, ¬ Rel s i hp k → s.cost k ≤ B + 1)
+    (limit R : ℕ) (hR : rosTimer sup (.rbf a (.scalar C)) interf B limit = .ok R) :
+    ∀ j, j < s.n → s.task j = i → MeetsBound s j R :=
+  timer_sound s σ i hp hl hi sup hs hsbf a C hwf hex hC interf hwfi hexi B hN hcost hhp hB limit R hR
+
+/-- the timer analysis on a periodic / deadline-constrained reservation: every compliant
+budget placement -/
+theorem timer_safe_reservation (s : Sys) (Q D P : ℕ) (hQ : 1 ≤ Q) (hQD : Q ≤ D) (hDP : D ≤ P)
+    (σ : ℕ → Bool) (hσ : Compliant Q D P σ) (i : ℕ) (hp : ℕ → Prop) [DecidablePred hp]
+    (hl : SupplyTimerLegal s σ i hp) (hi : ¬ hp i)
+    (a : Arr) (C : ℕ) (hwf : a.WF) (hex : a.Exact) (hC : 1 ≤ C)
+    (interf : RB) (hwfi : interf.ArrWF) (hexi : interf.Exact) (B : ℕ)
+    (hN : ∀ t d, countOf s i t (t + d) ≤ a.N d)
+    (hcost : ∀ k < s.n, s.task k = i → s.cost k ≤ C)
+    (hhp : ∀ t d, workOf s hp t (t + d) ≤ interf.need d)
+    (hB : ∀ k < s.n, ¬ Rel s i hp k → s.cost k ≤ B + 1)
+    (limit R : ℕ) (hR : rosTimer (.constrained Q D P) (.rbf a (.scalar C)) interf B limit = .ok R) :
+    ∀ j, j < s.n → s.task j = i → MeetsBound s j R :=
+  timer_sound_reservation s Q D P hQ hQD hDP σ hσ i hp hl hi a C hwf hex hC interf hwfi hexi B
+    hN hcost hhp hB limit R hR
+
+/-- C04, polling-point callback: `Ok(R)` of `rta_polling_point_callback` (every other callback
+counted as interference) is never exceeded by any instance of the analysed callback -/
+theorem polling_point_safe (s : Sys) (σ : ℕ → Bool) (i : ℕ)
+    (hl : SupplyTimerLegal s σ i (fun k => k ≠ i))
+    (sup : Supply) (hs : sup.WF) (hsbf : ∀ t d, sup.sbf d ≤ service σ t d)
+    (a : Arr) (C : ℕ) (hwf : a.WF) (hex : a.Exact) (hC : 1 ≤ C)
+    (interf : RB) (hwfi : interf.ArrWF) (hexi : interf.Exact)
+    (hN : ∀ t d, countOf s i t (t + d) ≤ a.N d)
+    (hcost : ∀ k < s.n, s.task k = i → s.cost k ≤ C)
+    (hint : ∀ t d, workOf s (fun k => k ≠ i) t (t + d) ≤ interf.need d)
+    (limit R : ℕ) (hR : rosPollingPoint sup (.rbf a (.scalar C)) interf limit = .ok R) :
+    ∀ j, j < s.n → s.task j = i → MeetsBound s j R :=
+  pollingPoint_sound s σ i hl sup hs hsbf a C hwf hex hC interf hwfi hexi hN hcost hint limit R hR
+
+theorem polling_point_safe_reservation (s : Sys) (Q D P : ℕ) (hQ : 1 ≤ Q) (hQD : Q ≤ D)
+    (hDP : D ≤ P) (σ : ℕ → Bool) (hσ : Compliant Q D P σ) (i : ℕ)
+    (hl : SupplyTimerLegal s σ i (fun k => k ≠ i))
+    (a : Arr) (C : ℕ) (hwf : a.WF) (hex : a.Exact) (hC : 1 ≤ C)
+    (interf : RB) (hwfi : interf.ArrWF) (hexi : interf.Exact)
+    (hN : ∀ t d, countOf s i t (t + d) ≤ a.N d)
+    (hcost : ∀ k < s.n, s.task k = i → s.cost k ≤ C)
+    (hint : ∀ t d, workOf s (fun k => k ≠ i) t (t + d) ≤ interf.need d)
+    (limit R : ℕ)
+    (hR : rosPollingPoint (.constrained Q D P) (.rbf a (.scalar C)) interf limit = .ok R) :
+    ∀ j, j < s.n → s.task j = i → MeetsBound s j R :=
+  pollingPoint_sound_reservation s Q D P hQ hQD hDP σ hσ i hl a C hwf hex hC interf hwfi hexi
+    hN hcost hint limit R hR
+
 /-- response times observed in a run of the executor model: every completed instance of
 callback `i` finished within `R` of its release -/
 def ExecMeets (cbs : List Exec.Cb) (chain : ℕ → Option ℕ) (sigma : List Bool) (rels : ℕ → List ℕ)
     (i R : ℕ) : Prop :=
   ∀ o ∈ Exec.run cbs chain sigma rels, o.1 = i → o.2.2 ≤ o.2.1 + R
 
-/-- the full claim for the timer analysis over the executor model (stated; explored by the
-falsifier; not proved): for every run of the executor on a compliant supply with releases
+/-- the claim for the timer analysis phrased over the executor transition system itself
+(stated; `timer_safe` proves it over the schedule-level Spec; that runs of the transition
+system satisfy that Spec is checked by execution, not proved): for every run of the executor on a compliant supply with releases
 bounded by the arrival curves, `Ok(R)` of `rta_timer` bounds the response times of the
 analysed timer -/
 def TimerSafe : Prop :=
